@@ -72,7 +72,13 @@ func fld(c *core.Ctx, rel, typ, name string) *types.Var {
 	if st == nil {
 		return nil
 	}
-	return c.FieldT(st, name, fieldType[rel+"."+typ+"."+name])
+	if f := c.FieldT(st, name, fieldType[rel+"."+typ+"."+name]); f != nil {
+		return f
+	}
+	// the field moved, with its neighbours, into a small struct the owner now embeds or
+	// holds (signalUser{subscription; context; contextID}): found one level down
+	_, f := fldNested(c, rel, typ, name, "")
+	return f
 }
 
 // fldNested resolves a field like fld, and also finds it one level down: in a
